@@ -11,12 +11,10 @@ CONSTANTS
   CmpOps <- MinCmp
   ChainOps <- MinChain
   Ctors <- RepCtors
-  MaxOps = 1
-  MaxTok = 3
+  MaxOps = 2
+  MaxTok = 5
   MaxParams = 0
   MaxNest = 0
   Dump = FALSE
-INVARIANT TypeOK
-INVARIANT ExprOK
-INVARIANT SigOK
 CHECK_DEADLOCK FALSE
+INVARIANT B_Parse
